@@ -95,6 +95,21 @@ Verdict check_mask_direct(const J& r) {
   Verdict v; int solver; double a, f, lat1, lon1, azi1, len; bool arc;
   if (!get_dir(r, solver, a, f, lat1, lon1, azi1, arc, len)) { v.skip("outside documented domain"); return v; }
   ref::Ellipsoid E(a, f);
+  {
+    // LONG_UNROLL is part of the mask as well: it may change lon2 by a multiple of 360 degrees and nothing else
+    Outs w = call_direct(solver, a, f, lat1, lon1, azi1, arc, len, Geodesic::ALL, 0);
+    Outs u = call_direct(solver, a, f, lat1, lon1, azi1, arc, len, Geodesic::ALL | Geodesic::LONG_UNROLL, 0);
+    Scale sc = scales(E, w.v[0], w.ret, solver_exact(solver));
+    L tolv[8] = {sc.ang, 0, sc.ang, sc.len, sc.len, sc.M, sc.M, sc.S};
+    v.le(fabsl((L)u.ret - (L)w.ret), sc.ang, "returned a12 depends on LONG_UNROLL [deg]");
+    for (int i = 0; i < 8; ++i) {
+      char nm[96]; std::snprintf(nm, sizeof nm, "direct output %d depends on LONG_UNROLL", i);
+      if (i == 1) { if (std::isfinite(w.v[1]) && std::isfinite(u.v[1])) v.le(fabsl(remainderl((L)u.v[1] - (L)w.v[1], 360.0L)), sc.lon + 8e-16L * (fabsl((L)u.v[1]) + fabsl((L)lon1) + 360), "direct lon2 with vs without LONG_UNROLL (mod 360) [deg]"); }
+      else if (std::isnan(w.v[i]) || std::isnan(u.v[i])) v.that(std::isnan(w.v[i]) && std::isnan(u.v[i]), nm);
+      else v.le(fabsl((L)u.v[i] - (L)w.v[i]), tolv[i], nm);
+    }
+    if (v.failed()) return v;
+  }
   for (int unroll = 0; unroll < 2; ++unroll) {
     unsigned U = unroll ? Geodesic::LONG_UNROLL : 0u;
     Outs all = call_direct(solver, a, f, lat1, lon1, azi1, arc, len, Geodesic::ALL | U, 0);
